@@ -20,7 +20,21 @@ non-default `stoich_fn` / `rank_fn`, and the documented alternative spellings of
 (`kind` only, `bipartite` flag only, missing `stoich` = 1, float `stoich`, integer node ids, label-less
 species).  The model side of every query is computed from the description of the network at that
 moment only.  `as_dict()` agreeing with the summary is part of the comparison.
+
+Arc orientation and graph class of a bipartite input (stream `bip-forms`, and every bipartite session):
+the documented convention of a bipartite graph is the `role` / `stoich` attribute of an arc, not its
+direction, so the same network is also written with every arc species->reaction, every arc
+reaction->species, every arc of the conventional form flipped, and a per-arc pseudo-random direction
+(a hash of the session's `oseed`, replayable), as `DiGraph`, `MultiDiGraph`, `MultiGraph` (a species on
+both sides of one reaction = two parallel edges) and - without such a species, which an undirected
+simple graph cannot hold - `Graph`.  All
+quantities of the property are compared with the model exactly as for the conventional spelling
+(also the complex vectors of undirected inputs: `_as_bipartite` orients their edges by role; a tree
+that keeps both arcs of every undirected edge reports every complex vector doubled, which is a
+violation of "the complexes are exactly the reactant and product multisets" and is reported with the
+class `undirected-input-complex-vectors-doubled`).
 """
+import hashlib
 import itertools
 import json
 from fractions import Fraction
@@ -430,6 +444,9 @@ TEXTBOOK = [
 OPTS = ("default", "stoich_none", "stoich_list", "rank_lambda")
 SUMMARY_METHODS = ("crn", "crn_nd", "summary", "summary_linkage")
 METHODS = SUMMARY_METHODS + ("linkage", "one", "peek")
+# bipartite inputs: how the arcs are directed and which NetworkX class holds them (flavor keys "orient", "oseed", "gtype")
+ORIENTS = ("conv", "s2r", "r2s", "flip", "rand")
+GTYPES = ("DiGraph", "MultiDiGraph", "Graph", "MultiGraph")
 
 
 class InvalidSession(Exception):
@@ -513,7 +530,14 @@ class _Net:
             self.obj = CRNHyperGraph()
         else:
             import networkx as nx
-            self.obj = nx.DiGraph()
+            gt = self.flavor.get("gtype", "DiGraph")
+            if gt not in GTYPES or self.flavor.get("orient", "conv") not in ORIENTS:
+                raise InvalidSession("unknown graph class / orientation")
+            self.obj = getattr(nx, gt)()
+
+    @property
+    def undirected(self):
+        return self.kind == "bip" and self.flavor.get("gtype", "DiGraph") in ("Graph", "MultiGraph")
 
     def fork(self):
         import copy
@@ -545,6 +569,20 @@ class _Net:
             self.spnode[s] = node
         return self.spnode[s]
 
+    def _species_to_reaction(self, rid, s, role):
+        """Direction in which the arc is written (the role attribute, not the direction, tells the side)."""
+        o = self.flavor.get("orient", "conv")
+        if o == "conv":
+            return role == "reactant"
+        if o == "s2r":
+            return True
+        if o == "r2s":
+            return False
+        if o == "flip":
+            return role == "product"
+        h = hashlib.sha256(f"{self.flavor.get('oseed', 0)}|{rid}|{s}|{role}".encode()).digest()  # "rand": per arc, replayable
+        return bool(h[0] & 1)
+
     def _arcs(self, rn, r):
         f = self.flavor
         for side, role in (("r", "reactant"), ("p", "product")):
@@ -553,13 +591,17 @@ class _Net:
                 if not (f.get("omit1") and int(c) == 1):
                     attrs["stoich"] = float(c) if f.get("float") else int(c)
                 u = self._sp(s)
-                if role == "reactant":
-                    self.obj.add_edge(u, rn, **attrs)
-                else:
-                    self.obj.add_edge(rn, u, **attrs)
+                a, b = (u, rn) if self._species_to_reaction(r["id"], s, role) else (rn, u)
+                if not self.obj.is_multigraph() and self.obj.has_edge(a, b):
+                    # a species on both sides of this reaction: a simple DiGraph has room for one arc per direction
+                    a, b = b, a
+                self.obj.add_edge(a, b, **attrs)
 
     def edit(self, op):
         before = json.dumps(self.desc, sort_keys=True)
+        if (self.kind == "bip" and self.flavor.get("gtype") == "Graph" and op["op"] in ("add", "set")
+                and {x for x, _ in op["rxn"]["r"]} & {x for x, _ in op["rxn"]["p"]}):
+            raise InvalidSession("an undirected simple graph cannot hold a species on both sides of one reaction")
         apply_desc(self.kind, self.desc, op)  # raises InvalidSession before anything is touched
         o = op["op"]
         if self.kind == "hyper":
@@ -593,7 +635,7 @@ class _Net:
                 self._arcs(rn, r)
             elif o == "set":
                 rn = self.rnode[op["rxn"]["id"]]
-                G.remove_edges_from(list(G.in_edges(rn)) + list(G.out_edges(rn)))
+                G.remove_edges_from((list(G.in_edges(rn)) + list(G.out_edges(rn))) if G.is_directed() else list(G.edges(rn)))
                 G.nodes[rn]["label"] = op["rxn"].get("rule") or "r"
                 self._arcs(rn, op["rxn"])
             elif o == "iso":
@@ -620,8 +662,13 @@ class _Net:
         lab = {v: k for k, v in self.spnode.items()}
         got = []
         for rn in _split_species_reactions(G)[1]:
-            got.append([sorted([lab[u], int(d.get("stoich", 1))] for u, _, d in G.in_edges(rn, data=True)),
-                        sorted([lab[v], int(d.get("stoich", 1))] for _, v, d in G.out_edges(rn, data=True))])
+            # the side is told by the role attribute; the direction of an arc is free (flavor "orient")
+            inc = (list(G.in_edges(rn, data=True)) + list(G.out_edges(rn, data=True))) if G.is_directed() else list(G.edges(rn, data=True))
+            inc = [(v if u == rn else u, d) for u, v, d in inc]
+            if any(d.get("role") not in ("reactant", "product") for _, d in inc):
+                return f"arc without a role at reaction node {rn!r}"
+            got.append([sorted([lab[x], int(d.get("stoich", 1))] for x, d in inc if d["role"] == "reactant"),
+                        sorted([lab[x], int(d.get("stoich", 1))] for x, d in inc if d["role"] == "product")])
         want = [[sorted(r["r"]), sorted(r["p"])] for r in net["reactions"]]
         return None if got == want else f"reaction nodes {got} != {want}"
 
@@ -640,6 +687,22 @@ def _make_analyzer(obj, opt):
     if opt == "rank_lambda":
         return DeficiencyAnalyzer(obj, rank_fn=lambda g: int(np.linalg.matrix_rank(stoichiometric_matrix(g))))
     raise InvalidSession("unknown option " + str(opt))
+
+
+def undouble(impl, desc):
+    """Classifier only (nothing is tolerated): an implementation that hands the analyzer a symmetric DiGraph for an
+    undirected input meets every incidence twice and reports every complex vector multiplied by 2.  -> (impl with the
+    vectors halved, True) exactly when the reported list is not the definition's but its uniform double; else (impl, False)."""
+    if "error" in impl:
+        return impl, False
+    o = oracle(desc)
+    cs = [tuple(c) for c in impl["complexes"]]
+    if "error" in o or set(cs) == o["complexes"] or any(x % 2 for c in cs for x in c):
+        return impl, False
+    half = [tuple(x // 2 for x in c) for c in cs]
+    if set(half) != o["complexes"]:
+        return impl, False
+    return dict(impl, complexes=half), True
 
 
 def exec_session(sess):
@@ -713,7 +776,7 @@ def exec_session(sess):
                 if a["sum_ver"] != net.ver:
                     continue
                 obs_impl, linkage = observe(an), a["link_ver"] == net.ver
-            out.append({"step": k, "an": op["an"], "m": m, "opt": a["opt"], "kind": net.kind, "desc": copy.deepcopy(net.desc),
+            out.append({"doubled": net.undirected and undouble(obs_impl, net.desc)[1], "step": k, "an": op["an"], "m": m, "opt": a["opt"], "kind": net.kind, "desc": copy.deepcopy(net.desc),
                         "net": net.net_json(), "impl": obs_impl, "linkage": linkage, "enc": net.check_encoding(),
                         "reused": reused and computes, "same_shape": reused and computes and a["shape"] == shape})
             if err is None and computes:
@@ -793,6 +856,17 @@ def shrink_session(ctx, sess):
     small = dict(small, init=dict(small["init"], reactions=shrink_seq(small["init"]["reactions"], fails_init, budget=40)))
     if small.get("flavor") and session_failure(ctx, dict(small, flavor={})) is not None:
         small = dict(small, flavor={})
+    for key in sorted(small.get("flavor") or {}):  # spelling options that do not matter for the failure
+        fl = {k: v for k, v in small["flavor"].items() if k != key}
+        if key != "oseed" and session_failure(ctx, dict(small, flavor=fl)) is not None:
+            small = dict(small, flavor=fl)
+    if (small.get("flavor") or {}).get("orient") == "rand":  # a fixed orientation reads better than a hash
+        for o in ("s2r", "r2s", "flip"):
+            fl = {k: v for k, v in small["flavor"].items() if k != "oseed"}
+            fl["orient"] = o
+            if session_failure(ctx, dict(small, flavor=fl)) is not None:
+                small = dict(small, flavor=fl)
+                break
     if small["init"].get("isolated") and session_failure(ctx, dict(small, init=dict(small["init"], isolated=[]))) is not None:
         small = dict(small, init=dict(small["init"], isolated=[]))
     return small
@@ -807,6 +881,10 @@ def run_sessions(ctx, sessions, tag):
         runs.append((sess, obs))
         ctx.count(f"sessions[{tag}]")
         ctx.count(f"session:kind={sess['kind']}")
+        if sess["kind"] == "bip":
+            fl = sess.get("flavor") or {}
+            ctx.count(f"session:bip:orient={fl.get('orient', 'conv')}")
+            ctx.count(f"session:bip:graph={fl.get('gtype', 'DiGraph')}")
     models = lean_models(ctx, [ob["net"] for _, obs in runs for ob in obs])
     if models is None:
         return
@@ -852,7 +930,8 @@ def run_sessions(ctx, sessions, tag):
                                "network_at_failing_step": netio.fmt(fob["desc"]) + "".join(f" (+ isolated species {s})" for s in fob["desc"]["isolated"] if s not in _used(fob["desc"])),
                                "impl": {k: (str(v) if k == "complexes" else v) for k, v in fob["impl"].items()},
                                "definition": {k: str(v) for k, v in oracle(fob["desc"]).items() if k not in ("arcs",)},
-                               "stream": tag})
+                               "stream": tag},
+                              classes=("undirected-input-complex-vectors-doubled",) if fob.get("doubled") else ())
             break  # one report per session
         if len(ctx.violations) >= 5:
             return
@@ -862,6 +941,47 @@ def run_sessions(ctx, sessions, tag):
 LABEL_POOLS = [list("ABCD"), list("ABC"), list("ABCDEF"), ["S1", "S10", "S2", "s1", "T"], ["X", "Y"]]
 FLAVORS = [{}, {}, {"mark": "kind"}, {"mark": "flag"}, {"float": True}, {"omit1": True}, {"intid": True},
            {"nolabel": True}, {"mark": "flag", "omit1": True, "float": True}, {"intid": True, "mark": "kind", "omit1": True}]
+
+
+def rand_form(rnd, conventional=0.25):
+    """Orientation / graph class of a bipartite input -> (flavor keys, simple undirected graph? i.e. no species on both
+    sides of one reaction can be written)."""
+    fl = {}
+    if rnd.random() >= conventional:
+        fl["orient"] = rnd.choice(["s2r", "s2r", "r2s", "flip", "rand", "rand"])
+        if fl["orient"] == "rand":
+            fl["oseed"] = rnd.randrange(1 << 30)
+    g = rnd.choice(["DiGraph"] * 5 + ["MultiDiGraph"] * 2 + ["Graph"] * 2 + ["MultiGraph"])
+    if g != "DiGraph":
+        fl["gtype"] = g
+    return fl, g == "Graph"
+
+
+def decat(r):
+    """The reaction without the product entries of species that are also reactants (what an undirected simple graph can hold)."""
+    left = {s for s, _ in r["r"]}
+    return dict(r, r=[list(e) for e in r["r"]], p=[list(e) for e in r["p"] if e[0] not in left])
+
+
+def form_session(rnd, desc, form=None):
+    """One network, written as a bipartite graph in one attribute spelling x orientation x graph class, analysed once
+    (sometimes by a second analyzer with other options, or after a copy)."""
+    fl, und = form if form is not None else rand_form(rnd, conventional=0.1)
+    flavor = dict(rnd.choice(FLAVORS), **fl)
+    rs = [_copy_rxn(r) for r in desc["reactions"]]
+    if und:
+        rs = [decat(r) for r in rs]
+    opt = rnd.choice(["default"] * 4 + list(OPTS[1:]))
+    steps = [{"op": "an", "name": "a0", "net": "n0", "opt": opt},
+             {"op": "q", "an": "a0", "m": rnd.choice(["crn", "crn", "crn", "summary_linkage", "one", "crn_nd" if opt != "stoich_none" else "crn"])}]
+    x = rnd.random()
+    if x < 0.15:
+        steps += [{"op": "an", "name": "a1", "net": "n0", "opt": rnd.choice(OPTS)}, {"op": "q", "an": "a1", "m": "crn"}]
+    elif x < 0.25:
+        steps += [{"op": "fork", "net": "n0", "as": "n1"}, {"op": "an", "name": "a1", "net": "n1", "opt": "default"}, {"op": "q", "an": "a1", "m": "crn"}]
+    elif x < 0.35:
+        steps.append({"op": "q", "an": "a0", "m": rnd.choice(["crn", "summary", "linkage", "peek"])})
+    return {"kind": "bip", "flavor": flavor, "init": {"reactions": rs, "isolated": list(desc.get("isolated", []))}, "steps": steps}
 
 
 def rand_side(rnd, sp, desc=None):
@@ -963,6 +1083,12 @@ def random_session(rnd):
     kind = rnd.choice(["hyper", "hyper", "hyper", "bip", "bip"])
     init, pool = random_init(rnd)
     sess = {"kind": kind, "flavor": dict(rnd.choice(FLAVORS)) if kind == "bip" else {}, "init": init, "steps": []}
+    und = False
+    if kind == "bip":
+        fl, und = rand_form(rnd, conventional=0.3)
+        sess["flavor"].update(fl)
+    if und:
+        init["reactions"] = [decat(r) for r in init["reactions"]]
     shadow = {"n0": copy.deepcopy(init)}
     if kind == "bip":
         shadow["n0"]["isolated"] = sorted(set(init["isolated"]) | _used(init))
@@ -994,6 +1120,8 @@ def random_session(rnd):
             k += 1
             for op in gen_edit(rnd, kind, shadow[net], pool, k):
                 op = dict(op, net=net)
+                if und and "rxn" in op:
+                    op["rxn"] = decat(op["rxn"])
                 apply_desc(kind, shadow[net], op)
                 steps.append(op)
             if not ans or rnd.random() < 0.15:
@@ -1030,7 +1158,14 @@ def replace_session(rnd, full, small):
     edit = [{"op": "set", "net": "n0", "rxn": new}] if rid == "r_2" else [{"op": "rm", "net": "n0", "id": "r_2"}, {"op": "add", "net": "n0", "rxn": new}]
     first = rnd.choice(["crn", "crn", "summary", "summary_linkage", "one"])
     second = rnd.choice(["crn", "crn", "crn", "summary", "summary_linkage"])
-    return {"kind": kind, "flavor": {}, "init": init,
+    flavor = {}
+    if kind == "bip":
+        flavor, und = rand_form(rnd, conventional=0.4)
+        if und:
+            init["reactions"] = [decat(r) for r in init["reactions"]]
+            new = decat(new)
+            edit = [dict(op, rxn=new) if "rxn" in op else op for op in edit]
+    return {"kind": kind, "flavor": flavor, "init": init,
             "steps": [{"op": "an", "name": "a0", "net": "n0", "opt": "default"}, {"op": "q", "an": "a0", "m": first}] + edit
             + [{"op": "q", "an": "a0", "m": second}, {"op": "q", "an": "a0", "m": "crn"}]}
 
@@ -1053,7 +1188,9 @@ def run(ctx):
         "compute_summary ran on the current network version, per-class list when the last compute_linkage_deficiencies used that complex graph)",
     ]
     ctx.assumptions = [
-        "the network is given as a CRNHyperGraph (distinct species labels, distinct reaction ids, positive integer coefficients)",
+        "the network is given as a CRNHyperGraph (distinct species labels, distinct reaction ids, positive integer coefficients) or as a "
+        "bipartite NetworkX graph with the documented node (`kind` / `bipartite`, `label`) and arc (`role`, `stoich`) attributes; arc direction is "
+        "not part of that convention",
         "delta >= 0 and sum(delta_l) <= delta are stated in Props/C19.lean `FullStatement` but not proved (they need a Matrix.rank argument); "
         "they are CHECKED with exact ranks on every generated case",
     ]
@@ -1068,7 +1205,13 @@ def run(ctx):
         "reactions or a textbook network, 1-8 rounds of {edit (replace / reverse / coefficient / catalyst / add / remove / isolated species / "
         "exchange ids), query (crn 8 : summary 3 : summary+linkage 2 : linkage 2 : deficiency-one 2 : accessors 2 : crn+nondegeneracy 1), new "
         "analyzer with options default 5 : stoich_fn=None : stoich_fn returning lists : custom rank_fn, copy of the network}, final full analysis "
-        "by every analyzer; 40 % bipartite DiGraphs in 10 attribute spellings; label pools incl. S1/S10/S2/s1. One case = one gated query.")
+        "by every analyzer; 40 % bipartite graphs in 10 attribute spellings; label pools incl. S1/S10/S2/s1. One case = one gated query. "
+        "Bipartite inputs (stream bip-forms and every bipartite session): arc orientation conventional / all species->reaction / all "
+        "reaction->species / all flipped / per-arc pseudo-random, held in a DiGraph 5 : MultiDiGraph 2 : Graph 2 : MultiGraph 1 (the simple "
+        "undirected Graph without a species on both sides of one reaction; in a MultiGraph such a species is two parallel edges); bip-forms = every textbook network in all 20 orientation x class "
+        "combinations, one-reaction networks over 3 species (300 sampled quick / all 728 thorough), 500 / 6000 random pairs and triples from "
+        "the 3-species tables, 400 / 5000 random networks, each in a random spelling x orientation x class (10 % conventional), analysed by "
+        "one analyzer with a random option (15 % a second analyzer, 10 % on a copy of the graph, 10 % a repeated query).")
     ctx.nontrivial_rule = ("no error, >= 2 reactions and >= 3 complexes; distinct as JSON values (session queries: distinct by network, "
                            "graph spelling, analyzer option, method and whether the analyzer was reused after an edit)")
     build_and_audit_scoped(ctx, "SynKitProofs.Props.C19", "SynKitProofs/Audit/C19.lean", THEOREMS)
@@ -1122,13 +1265,26 @@ def run(ctx):
         run_cases(ctx, [random_desc(rnd) for _ in range(1500 if ctx.quick else 15000)], "random")
         run_cases(ctx, [{"reactions": [], "isolated": ["A"]}, {"reactions": []}], "empty")
     if not ctx.violations:
+        # bipartite inputs whose arcs do not follow species -> reaction -> species, and other NetworkX classes
+        forms = [({"orient": o, **({"oseed": 7 * k + 1} if o == "rand" else {}), **({"gtype": g} if g != "DiGraph" else {})}, g == "Graph")
+                 for k, (o, g) in enumerate(itertools.product(ORIENTS, GTYPES))]
+        fs = [form_session(rnd, dict(d, isolated=[]), form=(dict(fl), und)) for d in tb for fl, und in forms]
+        one = [{"reactions": with_ids([r]), "isolated": []} for r in full]
+        fs += [form_session(rnd, d) for d in (one if not ctx.quick else rnd.sample(one, 300))]
+        for _ in range(500 if ctx.quick else 6000):
+            tab = small if rnd.random() < 0.6 else full
+            fs.append(form_session(rnd, {"reactions": with_ids([tab[i] for i in rnd.sample(range(len(tab)), rnd.choice([2, 2, 3]))]), "isolated": []}))
+        fs += [form_session(rnd, random_desc(rnd)) for _ in range(400 if ctx.quick else 5000)]
+        run_sessions(ctx, fs, "bip-forms")
+    if not ctx.violations:
         # hidden state / options / rare spellings: analyzers reused across edits and calls (see "sessions" above)
         run_sessions(ctx, [replace_session(rnd, full, small) for _ in range(300 if ctx.quick else 4000)], "session-replace")
     if not ctx.violations:
         run_sessions(ctx, [random_session(rnd) for _ in range(500 if ctx.quick else 6000)], "session-random")
     ctx.obligation("correspondence: complexes, complex graph, linkage classes, weak reversibility, n/l/rank/delta, per-class deficiencies == model; "
                    "reported rank == exact rank; delta >= 0 and sum(delta_l) <= delta with exact ranks; the same for analyzers reused across "
-                   "in-place edits, repeated / reordered calls, constructor options and bipartite-graph spellings (sessions)", not ctx.violations)
+                   "in-place edits, repeated / reordered calls, constructor options and bipartite-graph spellings incl. arc orientation and "
+                   "NetworkX graph class (sessions, bip-forms)", not ctx.violations)
 
 
 def replay(ctx, case):
